@@ -307,7 +307,10 @@ static void part_secondary(vf::Run& R)
                 }
                 if (!er.completed)
                 {
-                    R.violation(cc.at_rest_only
+                    // the at-rest annihilation of the scripted e+ needs two entries: with a
+                    // stack smaller than ONE request no retry can ever succeed (recorded finding);
+                    // with capacity >= 2 the event has to complete like any other
+                    R.violation(cc.at_rest_only && cc.cap < 2
                                     ? "exhaust:at-rest-request-larger-than-stack-never-completes"
                                     : "exhaust:event-does-not-complete",
                                 cid,
